@@ -43,8 +43,8 @@ KeywordKind(d, s) ==
      [] EqFold(s, "END_OBJECT") -> "EO"
      [] EqFold(s, "GROUP") -> "BG"
      [] EqFold(s, "OBJECT") -> "BO"
-     [] d # "ISIS" /\ EqFold(s, "BEGIN_GROUP") -> "BG"
-     [] d # "ISIS" /\ EqFold(s, "BEGIN_OBJECT") -> "BO"
+     [] EqFold(s, "BEGIN_GROUP") -> "BG"      \* also under the ISIS grammar: the library's ISIS tables keep the
+     [] EqFold(s, "BEGIN_OBJECT") -> "BO"     \* BEGIN_ forms and property C03 asks for them in every configuration
      [] OTHER -> ""
 
 (* ---------------- quoted strings ---------------- *)
@@ -154,7 +154,7 @@ TimeAt(s, i) ==
        fdig == IF frac THEN SubSeq(s, fb, fe - 1) ELSE <<>>
        trailingDigit == e <= n /\ (IsDigit(s[e]) \/ s[e] = 58 \/ s[e] = 46)
    IN [shape |-> hm /\ ~trailingDigit,
-       ok |-> hm /\ ~trailingDigit /\ H <= 23 /\ M <= 59 /\ Sx <= 60 /\ Len(fdig) <= 6,
+       ok |-> hm /\ ~trailingDigit /\ H <= 23 /\ M <= 59 /\ Sx <= 60 /\ (Len(fdig) <= 6 \/ Sx = 60),
        H |-> H, M |-> M, S |-> Sx, f |-> fdig, hasSec |-> sec, e |-> e]
 
 (* zone offset at s[i..]: sign H[H][:MM] to the end of s; returns minutes or 9999 when not an offset *)
